@@ -16,6 +16,10 @@ pub struct ProbeSeq {
     pub stride: usize,
 }
 
+pub struct InsertSlot {
+    pub index: usize,
+}
+
 pub struct RawTableInner {
     pub bucket_mask: usize,
     pub ctrl: Vec<u8>,
@@ -56,11 +60,20 @@ impl Group {
 
     // contract proved complete by CBMC obligation h_group on the real scanner
     #[verifier::external_body]
+    pub fn match_empty_or_deleted(&self) -> (r: BitMask)
+        requires self.bytes@.len() == Group::WIDTH,
+        ensures
+            r.lanes@.len() == Group::WIDTH,
+            forall|k: int| #![trigger r.lanes@[k]] #![trigger self.bytes@[k]] 0 <= k < Group::WIDTH ==> r.lanes@[k] == (self.bytes@[k] >= 0x80u8),
+    {
+        unimplemented!()
+    }
+    #[verifier::external_body]
     pub fn match_empty(self) -> (r: BitMask)
         requires self.bytes@.len() == Group::WIDTH,
         ensures
             r.lanes@.len() == Group::WIDTH,
-            forall|k: int| 0 <= k < Group::WIDTH ==> r.lanes@[k] == (self.bytes@[k] == 0xFFu8),
+            forall|k: int| #![trigger r.lanes@[k]] #![trigger self.bytes@[k]] 0 <= k < Group::WIDTH ==> r.lanes@[k] == (self.bytes@[k] == 0xFFu8),
     {
         unimplemented!()
     }
@@ -80,6 +93,14 @@ impl BitMask {
     #[verifier::external_body]
     pub fn leading_zeros(self) -> (r: usize)
         ensures r as int == spec_lz(self.lanes@), r <= self.lanes@.len(),
+    {
+        unimplemented!()
+    }
+    #[verifier::external_body]
+    pub fn lowest_set_bit(self) -> (r: Option<usize>)
+        ensures
+            r is None ==> forall|k: int| 0 <= k < self.lanes@.len() ==> !self.lanes@[k],
+            r matches Some(b) ==> b < self.lanes@.len() && self.lanes@[b as int] && forall|k: int| 0 <= k < b ==> !self.lanes@[k],
     {
         unimplemented!()
     }
@@ -112,6 +133,10 @@ impl RawTableInner {
             &&& forall|j: int| self.nb() <= j < Group::WIDTH ==> #[trigger] self.ctrl@[j] == 0xFFu8
             &&& forall|j: int| 0 <= j < self.nb() ==> #[trigger] self.ctrl@[Group::WIDTH + j] == self.ctrl@[j]
         }
+    }
+    /// k-th byte of the window starting at position `pos` of the control array
+    pub open spec fn win(&self, pos: int, k: int) -> u8 {
+        self.ctrl@[pos + k]
     }
     /// index of the mirror byte of bucket `index`
     pub open spec fn mirror_index(&self, index: int) -> int {
@@ -154,3 +179,9 @@ impl RawTableInner {
         unimplemented!()
     }
 }
+
+// core::option::Option::unwrap_unchecked: its safety precondition becomes a proof obligation
+pub assume_specification<T>[ Option::<T>::unwrap_unchecked ](o: Option<T>) -> (r: T)
+    requires o is Some,
+    ensures Some(r) == o,
+;
